@@ -96,6 +96,21 @@ static int compiler(const char *tool, int argc, char **argv) {
         if (!strcmp(argv[i], "-dumpversion")) { printf("12\n"); return 0; }
         if (!strcmp(argv[i], "-print-search-dirs")) { printf("install: /usr/lib/\nprograms: =/usr/bin\nlibraries: =/usr/lib\n"); return 0; }
         if (!strncmp(argv[i], "-print-", 7)) { printf("\n"); return 0; }
+        if (!strcmp(argv[i], "-Wp,-v")) {
+            /* the preprocessor's search list: CPATH, then the language's own variable, then the built-in directory */
+            const char *vars[2] = { "CPATH", strstr(tool, "++") ? "CPLUS_INCLUDE_PATH" : "C_INCLUDE_PATH" };
+            fprintf(stderr, "#include \"...\" search starts here:\n#include <...> search starts here:\n");
+            for (int v = 0; v < 2; v++) {
+                const char *val = getenv(vars[v]);
+                if (!val) continue;
+                char *copy = strdup(val), *save = NULL;
+                for (char *t = strtok_r(copy, ":", &save); t; t = strtok_r(NULL, ":", &save))
+                    fprintf(stderr, " %s\n", t);
+                free(copy);
+            }
+            fprintf(stderr, " /usr/include\nEnd of search list.\n");
+            return 0;
+        }
         if (!strcmp(argv[i], "-c")) build = 1;
         if (!strcmp(argv[i], "-o") && i + 1 < argc) { build = 1; out = argv[i + 1]; }
         if (!strcmp(argv[i], "-MF") && i + 1 < argc) mf = argv[i + 1];
